@@ -259,7 +259,13 @@ def load_known(prop: str) -> list[dict]:
     if not p.exists():
         return []
     data = json.loads(p.read_text())
-    return [e for e in data.get("findings", []) if e.get("property") == prop]
+    out = [e for e in data.get("findings", []) if e.get("property") == prop]
+    # entries proposed on a builder branch (findings/<Fid>.json) until the integrator moves them into known_findings.json
+    for f in sorted((VERIF / "findings").glob("*.json")) if (VERIF / "findings").is_dir() else []:
+        e = json.loads(f.read_text())
+        if e.get("property") == prop and not any(o.get("id") == e.get("id") for o in out):
+            out.append(e)
+    return out
 
 
 def write_replay(prop: str, obj: dict) -> str:
